@@ -520,6 +520,34 @@ func (p *pager) sqliteCheckpoint(restart bool, truncate bool) bool {
 	return true
 }
 
+// toRollback is PRAGMA journal_mode=DELETE on a WAL-mode database: a full checkpoint, the log is
+// deleted, then the file-format version bytes of page 1 go back to 1,1 through an ordinary
+// rollback-journal transaction (sqlite3PagerCloseWal + sqlite3BtreeSetVersion).
+func (p *pager) toRollback() bool {
+	if !p.wal || len(p.img) == 0 {
+		return false
+	}
+	if len(p.walPages) > 0 || p.walInit {
+		if !p.sqliteCheckpoint(true, false) {
+			return false
+		}
+	}
+	o := p.owner
+	if p.dmsHeld {
+		p.do(fmt.Sprintf("unlock %d DMS", o))
+		p.dmsHeld = false
+	}
+	if p.walFile {
+		p.do("wrm")
+	}
+	p.walFile, p.walInit = false, false
+	p.walPages = map[uint32][]byte{}
+	p.walOff = 0
+	p.wal = false
+	p.journalTx(txShape{newN: len(p.img), pages: map[int]bool{1: true}, commit: true}, 0, 0)
+	return true
+}
+
 // refLine renders the reference image as the `ref` pseudo-operation consumed by the spec checker.
 func (p *pager) refLine() string {
 	lock := p.lockPgno()
